@@ -9,8 +9,11 @@
  *   t<time>                         clock := time  (recent = now() = time)
  *   a                               SIGALRM seen by the main loop: pqrun()
  *   w                               pass_selprep(&wakeup) with wakeup = recent + SLEEP_FOREVER
- *   p<c>,<letters>                  pass_dochan(c); if a job was opened run the pass to EOF and answer the
- *                                   started deliveries in slot order with the letters (cycled; '?' = mangled)
+ *   p<c>,<letters>[,<fault>]        pass_dochan(c); if a job was opened run the pass to EOF and answer the
+ *                                   started deliveries in slot order with the letters (cycled; '?' = mangled);
+ *                                   fault (on the files of the message at the head of the heap): o = open_read of the
+ *                                   channel file fails, i = open_read of info/<id> fails (both: "trouble" exit, event p0),
+ *                                   u = unlink of the channel file fails, s = stat of the other channel file fails (EIO)
  *   f                               SIGTERM: pqfinish()
  * events (same separators), <q> = heap array as dt:id,… or '-':
  *   m | t | L/<q0>/<q1>/<done> | a/<q0>/<q1> | w<wakeup> | f/<mt0>/<mt1>  (mt = mtime:id of each channel file)
@@ -137,11 +140,28 @@ static void hist_step(const char *st) {
       return;
     }
     case 'p': {
-      int c = st[1] - '0'; const char *letters = (st[2] == ',' && st[3]) ? st + 3 : "Z";
+      int c = st[1] - '0'; char lbuf[32] = "Z"; char fault = 0;
       if (c < 0 || c > 1) { hev("bad"); return; }
+      if (st[2] == ',') {
+        const char *l = st + 3; const char *e = strchr(l, ','); size_t n = e ? (size_t)(e - l) : strlen(l);
+        if (n > 0 && n < sizeof lbuf) { memcpy(lbuf, l, n); lbuf[n] = 0; }
+        if (e && e[1]) fault = e[1];
+      }
+      const char *letters = lbuf;
       size_t nl = strlen(letters);
+      h_poison_clear();
+      if (fault && !pass[c].id && pqchan[c].len) {        /* injected system failure on the message about to be started */
+        unsigned long fid = pqchan[c].p[0].id;
+        switch (fault) {
+          case 'o': hpath(p, c ? "remote/" : "local/", fid, 1); h_poison_add(2, p); break;
+          case 'i': hpath(p, "info/", fid, 1); h_poison_add(2, p); break;
+          case 'u': hpath(p, c ? "remote/" : "local/", fid, 1); h_poison_add(1, p); break;
+          case 's': hpath(p, c ? "local/" : "remote/", fid, 1); h_poison_add(0, p); break;
+          default: hev("bad"); return;
+        }
+      }
       pass_dochan(c);
-      if (!pass[c].id) { hev("p0"); hev_pq(&pqchan[0]); hev_pq(&pqchan[1]); hev_pq(&pqdone); return; }
+      if (!pass[c].id) { h_poison_clear(); hev("p0"); hev_pq(&pqchan[0]); hev_pq(&pqchan[1]); hev_pq(&pqdone); return; }
       unsigned long id = pass[c].id; int j = pass[c].j;
       long retry = jo[j].retry; int dying = jo[j].flagdying;
       for (int guard = 0; pass[c].id && guard < 64; guard++) { comm_buf[c].len = 0; pass_dochan(c); }
@@ -154,6 +174,7 @@ static void hist_step(const char *st) {
         del_dochan(c);
         ndel++;
       }
+      h_poison_clear();
       /* observe the queue files */
       char recs[32]; int nr = 0;
       hpath(p, c ? "remote/" : "local/", id, 1);
@@ -200,7 +221,9 @@ static long hmin_due(int *cc) {        /* earliest due time over both channel he
 
 static void hist_generate(int n, int shard, int nshards) {
   static const long lifetimes[] = { 0, 1, 100, 3600, 604800, 604800, 2000000 };
-  static const char *letterss[] = { "Z", "K", "D", "ZK", "ZZD", "KZ?", "?", "ZDK?" };
+  static const char *letterss[] = { "Z", "K", "D", "ZK", "ZZD", "KZ?", "?", "ZDK?",
+                                    "Z,o", "Z,i", "K,u", "KD,u", "K,s", "D,s", "ZK,u", "Z,s", "K,o", "DK,i" };
+#define NLET() (h_below(5) == 0 ? 8 + h_below(10) : h_below(8))
   char st[128];
   for (int r = 0; r < n; r++) {
     if ((r % nshards) != shard) continue;
@@ -232,23 +255,107 @@ static void hist_generate(int n, int shard, int nshards) {
         if (t < h_clock && h_below(4)) t = h_clock;
         snprintf(st, sizeof st, "t%ld", t); hist_step(st);
         if (h_below(5) == 0) hist_step("w");
-        snprintf(st, sizeof st, "p%d,%s", c, letterss[h_below(8)]); hist_step(st);
-        if (h_below(3) == 0) { snprintf(st, sizeof st, "p%d,%s", (int)h_below(2), letterss[h_below(8)]); hist_step(st); }
-      } else if (r < 7) { snprintf(st, sizeof st, "p%d,%s", (int)h_below(2), letterss[h_below(8)]); hist_step(st); }
+        snprintf(st, sizeof st, "p%d,%s", c, letterss[NLET()]); hist_step(st);
+        if (h_below(3) == 0) { snprintf(st, sizeof st, "p%d,%s", (int)h_below(2), letterss[NLET()]); hist_step(st); }
+      } else if (r < 7) { snprintf(st, sizeof st, "p%d,%s", (int)h_below(2), letterss[NLET()]); hist_step(st); }
       else if (r == 7) hist_step("w");
-      else if (r == 8) { hist_step("a"); if (h_below(2)) { snprintf(st, sizeof st, "p%d,%s", (int)h_below(2), letterss[h_below(8)]); hist_step(st); } }
+      else if (r == 8) { hist_step("a"); if (h_below(2)) { snprintf(st, sizeof st, "p%d,%s", (int)h_below(2), letterss[NLET()]); hist_step(st); } }
       else if (r == 9) { hist_step("f"); hist_step("L"); }
       else if (r == 10) { snprintf(st, sizeof st, "t%ld", h_clock + (long)h_below((uint32_t)(lt / 2 + 1000))); hist_step(st); }
       else if (hnmsg) {                      /* the expiry boundary of some message: birth + lifetime -1/0/+1/+2 */
         long t = hmsgs[h_below(hnmsg)].birth + lt - 1 + (long)h_below(4);
         if (t >= h_clock) { snprintf(st, sizeof st, "t%ld", t); hist_step(st); }
         if (h_below(2)) hist_step("a");
-        snprintf(st, sizeof st, "p%d,%s", (int)h_below(2), letterss[h_below(8)]); hist_step(st);
+        snprintf(st, sizeof st, "p%d,%s", (int)h_below(2), letterss[NLET()]); hist_step(st);
       }
     }
     /* drain: everything that is due now, then jump past the last due time */
-    for (int c = 0; c < 2; c++) for (int k = 0; k < 2; k++) { snprintf(st, sizeof st, "p%d,%s", c, letterss[h_below(8)]); hist_step(st); }
+    for (int c = 0; c < 2; c++) for (int k = 0; k < 2; k++) { snprintf(st, sizeof st, "p%d,%s", c, letterss[NLET()]); hist_step(st); }
     hist_end();
+  }
+}
+
+/* ------------------------------------------------------------------ P: pqadd() / pqfail scenarios
+ * P <recent> <now> <pqfail> <files> <ncalls>
+ *   pqfail = dt:id,… | -      entries inserted into pqfail (in this order) before the first call
+ *   files  = id:info:todo:ch0:ch1,… | -   per message the stat() outcome of info/<id>, todo/<id>, local/<id>,
+ *            remote/<id>: n = ENOENT, e = EIO (poisoned), <mtime> = the file exists with this mtime
+ *   the real pass_do() is called ncalls times with flagexitasap set (pass_dochan returns at once) and
+ *   pqdone entries not yet due (now > recent), so only the pqfail part runs: prioq_min / prioq_delmin / pqadd.
+ * output: the same fields (now possibly adjusted) + after each call q0/q1/done/fail, calls separated by ';' */
+static char p_paths[64][96]; static int p_npaths;
+static void p_file(const char *path, const char *spec) {
+  if (spec[0] == 'n') return;
+  if (spec[0] == 'e') { h_poison_add(0, path); return; }
+  FILE *f = fopen(path, "w"); if (!f) { perror(path); exit(95); }
+  fputs("Fsender@example.org", f); fputc(0, f); fclose(f);
+  hset_mtime(path, strtol(spec, 0, 10));
+  if (p_npaths < 64) strncpy(p_paths[p_npaths++], path, 95);
+}
+static void p_case(long rec, long nw, char *failq, char *files, int ncalls) {
+  char p[128];
+  hist_init(); hist_reset(); h_poison_clear(); p_npaths = 0;
+  if (nw <= rec) nw = rec + 1;
+  fprintf(h_out, "P %ld %ld %s %s %d ", rec, nw, failq, files, ncalls);
+  char fcopy[1024]; strncpy(fcopy, files, sizeof fcopy - 1); fcopy[sizeof fcopy - 1] = 0;
+  if (!(fcopy[0] == '-' && !fcopy[1])) {
+    char *save = 0;
+    for (char *t = strtok_r(fcopy, ",", &save); t; t = strtok_r(0, ",", &save)) {
+      unsigned long id; char a[4][24];
+      if (sscanf(t, "%lu:%23[^:]:%23[^:]:%23[^:]:%23[^:]", &id, a[0], a[1], a[2], a[3]) != 5) continue;
+      hpath(p, "info/", id, 1); p_file(p, a[0]);
+      hpath(p, "todo/", id, 0); p_file(p, a[1]);
+      hpath(p, "local/", id, 1); p_file(p, a[2]);
+      hpath(p, "remote/", id, 1); p_file(p, a[3]);
+    }
+  }
+  pqchan[0].len = pqchan[1].len = pqdone.len = pqfail.len = 0;
+  char qcopy[1024]; strncpy(qcopy, failq, sizeof qcopy - 1); qcopy[sizeof qcopy - 1] = 0;
+  if (!(qcopy[0] == '-' && !qcopy[1])) {
+    char *save = 0;
+    for (char *t = strtok_r(qcopy, ",", &save); t; t = strtok_r(0, ",", &save)) {
+      struct prioq_elt pe; long dt; unsigned long id;
+      if (sscanf(t, "%ld:%lu", &dt, &id) != 2) continue;
+      pe.dt = dt; pe.id = id;
+      while (!prioq_insert(&pqfail, &pe)) nomem();
+    }
+  }
+  recent = rec; h_clock = nw; flagexitasap = 1;
+  hbuf_reset(&hevents);
+  for (int k = 0; k < ncalls; k++) {
+    pass_do();
+    if (k) hev(";");
+    hev("c"); hev_pq(&pqchan[0]); hev_pq(&pqchan[1]); hev_pq(&pqdone); hev_pq(&pqfail);
+  }
+  flagexitasap = 0;
+  if (hevents.n) fwrite(hevents.p, 1, hevents.n, h_out); else fputc('-', h_out);
+  fputc('\n', h_out);
+  for (int i = 0; i < p_npaths; i++) unlink(p_paths[i]);
+  p_npaths = 0; h_poison_clear();
+  pqchan[0].len = pqchan[1].len = pqdone.len = pqfail.len = 0;
+}
+
+static void p_generate(int n, int shard, int nshards) {
+  static const char *specs[] = { "n", "e", "%ld" };
+  char failq[512], files[900];
+  for (int r = 0; r < n; r++) {
+    if ((r % nshards) != shard) continue;
+    long rec = 1758862800L + (long)h_below(100000), nw = rec + (long)h_below(3);
+    int nm = 1 + h_below(4), fl = 0, ql = 0;
+    failq[0] = files[0] = 0;
+    for (int k = 0; k < nm; k++) {
+      unsigned long id = 1000 + 37 * k + h_below(30);
+      char a[4][24];
+      for (int j = 0; j < 4; j++) {
+        /* info mostly present, todo mostly absent, channel files anything */
+        int w = j == 0 ? (h_below(8) == 0 ? h_below(2) : 2) : j == 1 ? (h_below(8) == 0 ? 1 + h_below(2) : 0) : (int)h_below(3);
+        if (h_below(3) == 0) w = h_below(3);
+        snprintf(a[j], sizeof a[j], specs[w], rec - 2000 + (long)h_below(4000));
+      }
+      fl += snprintf(files + fl, sizeof files - fl, "%s%lu:%s:%s:%s:%s", k ? "," : "", id, a[0], a[1], a[2], a[3]);
+      ql += snprintf(failq + ql, sizeof failq - ql, "%s%ld:%lu", k ? "," : "", rec - 3 + (long)h_below(5) + (h_below(4) == 0 ? 200 : 0), id);
+    }
+    p_case(rec, nw, failq, files, 1 + h_below(nm + 2));
   }
 }
 
